@@ -454,10 +454,10 @@ def build_dict(pr, geo, mesh, ddata):
     if default_kind == "callable":
         covered = all(any(nm in tables and all(a <= i < b for a, i, b in zip(lo, idx, hi)) for nm, lo, hi in geo.subs) for idx in geo.indices())
         if not covered:
-            if geo.ndim > 1:
-                sig = "dict-callable-default-ndim>1"
-            elif pr["dtype"] in ("int", "bool"):
+            if pr["dtype"] in ("int", "bool"):
                 sig = "dict-callable-default-nan-sentinel-" + pr["dtype"]
+            elif geo.ndim > 1:
+                sig = "dict-callable-default-ndim>1"
     return E, spec, lookups, sig
 
 
